@@ -1015,6 +1015,23 @@ def run(ctx):
             fwd = True
     ctx.decide(fwd, "C11.prime", sp.ident, loc_of(sp), "sample_posterior forwards the primed checkpoint as resume_from",
                "sample_posterior never forwards _resume_from_default as resume_from", disc="forward")
+    # arguments that the primed route substitutes (sampler name, population size) are not read before the substitution: an option derived from the requested
+    # sampler name earlier (the preconditioning default, say) belongs to the placeholder, not to the sampler the resumed run is continued with
+    subs = []
+    for n in walk_no_nested(sp.node):
+        if isinstance(n, ast.Assign) and len(n.targets) == 1 and isinstance(n.targets[0], ast.Name) and n.targets[0].id in sp.params \
+                and isinstance(n.value, ast.Attribute) and n.value.attr.startswith("_resume"):
+            subs.append(n)
+    ctx.floor("arguments substituted on the primed resume route", len(subs), 2)
+    for a_ in subs:
+        pname = a_.targets[0].id
+        # the `if` statement(s) that guard the substitution may read the argument
+        guards = [i_ for i_ in walk_no_nested(sp.node) if isinstance(i_, ast.If) and any(a_ is x_ for x_ in ast.walk(i_))]
+        allowed = {id(x_) for g_ in guards for x_ in ast.walk(g_.test)}
+        early = [x_ for x_ in walk_no_nested(sp.node) if isinstance(x_, ast.Name) and x_.id == pname and isinstance(x_.ctx, ast.Load) and x_.lineno < a_.lineno and id(x_) not in allowed]
+        ctx.decide(not early, "C11.prime", sp.ident, loc_of(sp, early[0] if early else a_), f"`{pname}` is not read before the primed value may replace it",
+                   f"`{pname}` is read at line {early[0].lineno if early else '?'}, before line {a_.lineno} replaces it by the value primed by resume_from_file: what is derived there (a default that "
+                   "depends on the sampler, say) is the placeholder's, so the resumed run is continued with other settings than the run that wrote the checkpoint", disc=f"early-read|{pname}")
     # value-based: when it is forwarded, with which size and to which sampler
     evp = Evaluator(repo, max_depth=0)
     evp.run(sp, A)
@@ -1153,6 +1170,7 @@ MUTANTS = [
     M("checkpoint before mutation", _B, "samples = self.mutate(samples, beta)\n                if store_sample_history:\n                    self.history.sample_history.append(samples)\n                maybe_checkpoint()",
       "maybe_checkpoint()\n                samples = self.mutate(samples, beta)\n                if store_sample_history:\n                    self.history.sample_history.append(samples)", "C11.cut"),
     M("preconditioning fit sub-samples with the sampler's generator", _SB, "return self.preconditioning_transform.fit(x)", "if len(x) > 5000:\n            x = x[self.rng.choice(len(x), 5000, replace=False)]\n        return self.preconditioning_transform.fit(x)", "C11.reentry"),
+    M("preconditioning default resolved before the primed sampler is substituted", "src/aspire/aspire.py", "if (\n            sampler == \"importance\"\n            and hasattr(self, \"_resume_sampler_type\")", "if preconditioning is None and sampler == \"importance\":\n            preconditioning = \"none\"\n        if (\n            sampler == \"importance\"\n            and hasattr(self, \"_resume_sampler_type\")", "C11.prime"),
     M("per-call generator installed after the checkpoint was restored", _B, "self.target_efficiency = target_efficiency\n", "if checkpoint_callback is not None and hasattr(checkpoint_callback, \"rng\"):\n            self.rng = checkpoint_callback.rng\n        self.target_efficiency = target_efficiency\n", "C11.reentry"),
     M("resumed run re-records the restored population", _B, "if store_sample_history and not resumed:", "if store_sample_history:", "C11.reentry"),
     M("bytes source unsupported", _SB, "elif isinstance(source, bytes):\n            state = pickle.loads(source)\n", "", "C11.src"),
